@@ -98,14 +98,16 @@ public:
 struct FilterData {
 	std::string tag; int mode = 0;   // 1 raw, 2 multipart
 	std::string raw; int chunks = 0, end = 0, err = 0, new_file = 0, progress = 0, ready = 0; long long last_size = -1; bool size_shrank = false;
+	int behav = 0; std::string seen; bool bad_progress = false;   // behav: 0 passive; 1 reads every completed part (validation); 2 also re-reads the part on every progress call; 3 sniffs the first 4 bytes of a completed part
+	static std::string slurp(cppcms::http::file &f,size_t max){ std::istream &in = f.data(); in.clear(); in.seekg(0); std::string r; char b[512]; while(r.size() < max){ in.read(b,(std::streamsize)std::min(sizeof(b),max - r.size())); std::streamsize n = in.gcount(); if(n <= 0) break; r.append(b,(size_t)n); } in.clear(); return r; }
 	struct RawF : cppcms::http::raw_content_filter { FilterData *d;
 		void on_data_chunk(void const *p,size_t n) override { d->raw.append((char const *)p,n); d->chunks++; }
 		void on_end_of_content() override { d->end++; }
 		void on_error() override { d->err++; simk::TsanIgnore ign; AW->on_error[d->tag]++; } } rf;
 	struct MpF : cppcms::http::multipart_filter { FilterData *d;
 		void on_new_file(cppcms::http::file &) override { d->new_file++; d->last_size = -1; }
-		void on_upload_progress(cppcms::http::file &f) override { d->progress++; if((long long)f.size() < d->last_size) d->size_shrank = true; d->last_size = f.size(); }
-		void on_data_ready(cppcms::http::file &) override { d->ready++; }
+		void on_upload_progress(cppcms::http::file &f) override { d->progress++; if((long long)f.size() < d->last_size) d->size_shrank = true; d->last_size = f.size(); if(d->behav == 2){ std::string r = slurp(f,(size_t)1 << 30); if((long long)r.size() != (long long)f.size()) d->bad_progress = true; } }
+		void on_data_ready(cppcms::http::file &f) override { d->ready++; if(d->behav == 1 || d->behav == 2){ std::string r = slurp(f,(size_t)1 << 30); d->seen += f.name() + ":" + std::to_string(r.size()) + ":" + std::to_string((unsigned long long)wire::fnv(r)) + ";"; } else if(d->behav == 3){ d->seen += f.name() + ":" + slurp(f,4) + ";"; } }
 		void on_end_of_content() override { d->end++; }
 		void on_error() override { d->err++; simk::TsanIgnore ign; AW->on_error[d->tag]++; } } mf;
 	FilterData(){ rf.d = this; mf.d = this; }
@@ -119,17 +121,19 @@ public:
 			// called before the content is read: install the content filter
 			FilterData *fd = new FilterData; fd->tag = tag; fd->mode = path.compare(0,7,"/echomp") == 0 ? 2 : 1;
 			if(request().content_type_parsed().is_multipart_form_data() == false) fd->mode = 1;
+			if(fd->mode == 2 && path.size() > 7 && path[7] >= '1' && path[7] <= '3') fd->behav = path[7] - '0';
 			context().reset_specific<FilterData>(fd);
 			if(fd->mode == 1) request().set_content_filter(fd->rf); else request().set_content_filter(fd->mf);
 			{ simk::TsanIgnore ign; AW->filters_installed++; }
 			return;
 		}
 		{ simk::TsanIgnore ign; if(tag.empty()) AW->untagged_entries++; else AW->entered[tag]++; }
-		echo();
 		FilterData *fd = context().get_specific<FilterData>();
+		if(fd && fd->behav) for(auto &f:request().files()){ f->data().clear(); f->data().seekg(0); }   // the filter has read the parts: an application that reads them again rewinds them itself (post() values are built by cppcms)
+		echo();
 		if(fd){ std::ostringstream x; x << "X mode=" << fd->mode << " end=" << fd->end << " err=" << fd->err;
 			if(fd->mode == 1) x << " raw " << blob(fd->raw) << " chunks>0=" << (fd->chunks > 0);
-			else x << " new=" << fd->new_file << " ready=" << fd->ready << " shrank=" << fd->size_shrank;
+			else { x << " new=" << fd->new_file << " ready=" << fd->ready << " shrank=" << fd->size_shrank; if(fd->behav) x << " behav=" << fd->behav << " seen=" << (unsigned long long)wire::fnv(fd->seen) << " badprog=" << fd->bad_progress; }
 			response().out() << x.str() << "\n"; }
 		{ simk::TsanIgnore ign; if(!tag.empty()) AW->completed[tag]++; }
 		release_context()->async_complete_response();
@@ -285,7 +289,7 @@ struct E1 : Engine {
 		static const char *methods[] = {"GET","GET","POST","POST","PUT","DELETE","OPTIONS","X-Custom.Method"};
 		std::string m = methods[r.below(8)]; q["method"] = m; q["script"] = async_mount ? "/a" : "/s";
 		bool filt = async_mount && (m == "POST" || m == "PUT") && (prop == "C12" || prop == "C02") && r.below(3) == 0; if(filt) q["script"] = "/f";
-		std::string path = filt && r.below(2) ? "/echomp" : "/echo"; int ns = r.below(4); for(int i=0;i<ns;i++){ path += "/"; unsigned x = r.below(8); if(x == 0) path += ""; else if(x == 1) path += "%41b%2Fc"; else if(x == 2) path += "a%20b"; else if(x == 3) path += "."; else path += rnd_token(r,1,8); }
+		std::string path = filt && r.below(2) ? "/echomp" : "/echo"; if(path == "/echomp" && r.below(2)) path += (char)('1' + r.below(3));   // the digit selects what the multipart filter does with the parts (reads them / sniffs them) int ns = r.below(4); for(int i=0;i<ns;i++){ path += "/"; unsigned x = r.below(8); if(x == 0) path += ""; else if(x == 1) path += "%41b%2Fc"; else if(x == 2) path += "a%20b"; else if(x == 3) path += "."; else path += rnd_token(r,1,8); }
 		q["path"] = path;
 		if(r.below(3)){ std::string qs; int n = r.below(5); for(int i=0;i<n;i++){ if(i) qs += "&"; qs += rnd_token(r,1,5) + (r.below(8) ? "=" : "") ; qs += rnd_urlenc(r,10); if(r.below(12)==0) qs += "&" ; } q["query"] = qs; q["has_query"] = true; }
 		J hs = J::arr(); int nh = r.below(7); if(r.below(6) == 0) nh = 20 + r.below(120);   // many headers: the environment table grows through several sizes
@@ -606,7 +610,7 @@ struct E1 : Engine {
 		AW = nullptr;
 		// ------------------------------------------------------------ oracles
 		std::map<std::string,std::string> cache_pages;
-		int n_raw = 0, n_aborted = 0; int n_disk_refused = 0; int n_on_error = 0; int n_filtered = 0; int n_over_limit = 0; int n_gzip_empty = 0; int n_bad = 0, n_bad_refused = 0; int n_cache_hits = 0; int n_ex = 0, n_multi_seg = 0, n_body = 0, n_keepalive_followups = 0, n_writer = 0, n_gzip = 0, n_chunked = 0;
+		int n_raw = 0, n_aborted = 0; int n_disk_refused = 0; int n_on_error = 0; int n_filtered = 0, n_filter_reads = 0; int n_over_limit = 0; int n_gzip_empty = 0; int n_bad = 0, n_bad_refused = 0; int n_cache_hits = 0; int n_ex = 0, n_multi_seg = 0, n_body = 0, n_keepalive_followups = 0, n_writer = 0, n_gzip = 0, n_chunked = 0;
 		for(auto &cl:clients){ int port = 8080; bool conn_had_error = false; bool aborted_conn = false;
 			for(size_t i=0;i<cl->ex.size() && res.ok;i++){ Exchange &e = cl->ex[i]; n_ex++; if(e.seg.size() > 1) n_multi_seg++; if(e.req.has_body && !e.req.body.empty()) n_body++; if(i > 0 && !e.conn_closed_early) n_keepalive_followups++;
 				std::string who = std::string(cl->proto == 0 ? "http" : cl->proto == 1 ? "scgi" : "fastcgi") + " " + e.req.script + " request " + e.tag;
@@ -657,7 +661,10 @@ struct E1 : Engine {
 						bool mp = e.req.path.compare(0,7,"/echomp") == 0 && !e.req.boundary.empty();
 						if(!mp){ // raw filter: the application parses nothing, the filter saw every byte exactly once
 							want = echo_text(x.env,x.get,Pairs(),x.cookies,"",std::vector<std::string>()) + "X mode=1 end=1 err=0 raw " + blob(e.req.body) + " chunks>0=1\n"; }
-						else want = echo_text(x.env,x.get,x.post,x.cookies,x.body,x.files) + "X mode=2 end=1 err=0 new=" + std::to_string(e.req.parts.size()) + " ready=" + std::to_string(e.req.parts.size()) + " shrank=0\n"; }
+						else { want = echo_text(x.env,x.get,x.post,x.cookies,x.body,x.files) + "X mode=2 end=1 err=0 new=" + std::to_string(e.req.parts.size()) + " ready=" + std::to_string(e.req.parts.size()) + " shrank=0";
+							int behav = e.req.path.size() > 7 && e.req.path[7] >= '1' && e.req.path[7] <= '3' ? e.req.path[7] - '0' : 0;
+							if(behav){ std::string seen; for(auto &pt:e.req.parts) seen += behav == 3 ? pt.name + ":" + pt.content.substr(0,4) + ";" : pt.name + ":" + std::to_string(pt.content.size()) + ":" + std::to_string((unsigned long long)wire::fnv(pt.content)) + ";"; want += " behav=" + std::to_string(behav) + " seen=" + std::to_string((unsigned long long)wire::fnv(seen)) + " badprog=0"; n_filter_reads++; }
+							want += "\n"; } }
 					else want = echo_text(x.env,x.get,x.post,x.cookies,x.body,x.files);
 					if(body != want && getenv("E1_DEBUG_ECHO")) fprintf(stderr,"---- got:\n%s\n---- want:\n%s\n",body.c_str(),want.c_str());
 					// the class names the kind of the first differing line (E env, G get, P post, C cookie, B body, F file, X filter): minimisation must not drift from one kind of difference into another
@@ -689,7 +696,7 @@ struct E1 : Engine {
 		if(res.ok) for(auto &kv:aw.on_error){ if(kv.second > 1) res.fail("upload-error-notified-twice","request " + kv.first + ": content filter on_error() called " + std::to_string(kv.second) + " times"); else if(aw.completed.count(kv.first)) res.fail("error-and-completion","request " + kv.first + ": on_error() was called and the handler completed as well"); n_on_error += kv.second; }
 		if(res.ok && leaked) res.fail("descriptor-leak",std::to_string(leaked) + " simulated descriptors still open after the service was destroyed");
 		if(res.ok && !aw.exception.empty()) res.fail("exception-escaped",aw.exception);
-		res.counters["raw_mode_responses"] = n_raw; res.counters["client_aborts_mid_response"] = n_aborted; res.counters["filter_on_error_calls"] = n_on_error; res.counters["content_filter_requests"] = n_filtered; res.counters["filters_installed"] = aw.filters_installed; res.counters["over_limit_413"] = n_over_limit; res.counters["gzip_announced_empty_body"] = n_gzip_empty; res.counters["malformed_exchanges"] = n_bad; res.counters["malformed_refused_as_required"] = n_bad_refused; res.counters["page_cache_hits"] = n_cache_hits; res.counters["exchanges"] = n_ex; res.counters["multi_segment_requests"] = n_multi_seg; res.counters["requests_with_body"] = n_body; res.counters["keepalive_followups"] = n_keepalive_followups; res.counters["writer_responses"] = n_writer; res.counters["gzip_responses"] = n_gzip; res.counters["chunked_responses"] = n_chunked;
+		res.counters["raw_mode_responses"] = n_raw; res.counters["client_aborts_mid_response"] = n_aborted; res.counters["filter_on_error_calls"] = n_on_error; res.counters["content_filter_requests"] = n_filtered; res.counters["filter_reads_parts"] = n_filter_reads; res.counters["filters_installed"] = aw.filters_installed; res.counters["over_limit_413"] = n_over_limit; res.counters["gzip_announced_empty_body"] = n_gzip_empty; res.counters["malformed_exchanges"] = n_bad; res.counters["malformed_refused_as_required"] = n_bad_refused; res.counters["page_cache_hits"] = n_cache_hits; res.counters["exchanges"] = n_ex; res.counters["multi_segment_requests"] = n_multi_seg; res.counters["requests_with_body"] = n_body; res.counters["keepalive_followups"] = n_keepalive_followups; res.counters["writer_responses"] = n_writer; res.counters["gzip_responses"] = n_gzip; res.counters["chunked_responses"] = n_chunked;
 		{ long long np = 0, nr = 0; for(auto &cl:clients){ np += cl->n_pauses; nr += cl->n_read_pauses; } res.counters["slow_peer_pauses"] = np; res.counters["slow_reader_pauses"] = nr; }
 		res.counters["pipelined_requests"] = n_pipelined;
 		res.counters["disk_faults_injected"] = (long long)st.stdio_fail; res.counters["upload_spill_stdio_calls"] = (long long)st.stdio_ops; res.counters["uploads_refused_after_disk_fault"] = n_disk_refused;
